@@ -41,6 +41,13 @@ static std::string run_law(int type_gid, const LawParams& lp, const std::vector<
 }
 
 // ------------------------------------------------------------------------------------------------ (b) 3-sigma clamp over a seed range
+struct ClampParams { double ag, sg, ad, sd; };
+static const std::vector<ClampParams> CLAMP_MENU = { {5.0, 0.5, 10.0, 2.0},            // growth spread < division spread
+                                                     {5.0, 2.0, 10.0, 0.5},            // growth spread > division spread
+                                                     {-1.0, 0.25, 3.0, 0.01},          // negative mean growth (shrinking cells), narrow division band
+                                                     {2e-11, 2e-12, 1.4e-14, 1.4e-15}  // the magnitudes of parameters_default_dynamic.xml
+                                                   };
+static std::string clamp_json(const ClampParams& p) { return "{\"avg_growth\":" + vf::jnum(p.ag) + ",\"std_growth\":" + vf::jnum(p.sg) + ",\"avg_division_vol\":" + vf::jnum(p.ad) + ",\"std_division_vol\":" + vf::jnum(p.sd) + "}"; }
 static unsigned long g_forced_seed = 0; static bool g_force = false;
 namespace simucell3d_verif { unsigned long rng_seed(const char* site, unsigned long key) { if (g_force) return g_forced_seed; unsigned long h = g_base_seed * 1000003ul + key; for (const char* s = site; *s; ++s) h = h * 131 + (unsigned char)*s; return h % 2147483646ul + 1; } }
 
@@ -92,17 +99,19 @@ static void explore(Result& R) {
 removal:
     R["law_histories"] = law_hist; R["law_steps"] = law_steps;
     // (b) clamp: complete seed range through the H2 seam
-    { auto ty = sc::make_cell_type(0, 3); ty->avg_growth_rate_ = 5.0; ty->std_growth_rate_ = 0.5; ty->avg_division_vol_ = 10.0; ty->std_division_vol_ = 2.0; cell_ptr c = sc::make_cell(sc::octahedron(), 0, ty, true);
-      long N = th ? 1000000 : 200000; long lo_g = 0, hi_g = 0, lo_d = 0, hi_d = 0; g_force = true;
-      for (long s = 1; s <= N; s++) { g_forced_seed = (unsigned long)s; c->initialize_random_properties(); double g = c->get_growth_rate(), d = c->get_division_volume();
-          if (!(g >= 5.0 - 1.5 - 1e-12 && g <= 5.0 + 1.5 + 1e-12)) { R.violation("growth-rate-outside-3-sigma", "seed " + std::to_string(s) + ": growth rate " + jnum(g) + " outside 5 +/- 1.5", "mode=clamp\nseed=" + std::to_string(s) + "\n"); break; }
-          if (!(d >= 10.0 - 6.0 - 1e-12 && d <= 10.0 + 6.0 + 1e-12)) { R.violation("division-volume-outside-3-sigma", "seed " + std::to_string(s) + ": division volume " + jnum(d) + " outside 10 +/- 6", "mode=clamp\nseed=" + std::to_string(s) + "\n"); break; }
-          if (g == 3.5) lo_g++; if (g == 6.5) hi_g++; if (d == 4.0) lo_d++; if (d == 16.0) hi_d++; }
-      R["clamp_seeds"] = N; R.tables["clamp_branch_hits"]["growth_low"] = lo_g; R.tables["clamp_branch_hits"]["growth_high"] = hi_g; R.tables["clamp_branch_hits"]["division_low"] = lo_d; R.tables["clamp_branch_hits"]["division_high"] = hi_d;
-      if (!(lo_g && hi_g && lo_d && hi_d) && R.violations.empty()) R.internal_error = "a clamp branch was never taken in the seed range (vacuous)";
-      // INF division volume stays INF; zero sigma gives the mean
-      ty->avg_division_vol_ = INF; g_forced_seed = 7; c->initialize_random_properties(); if (!std::isinf(c->get_division_volume())) R.violation("infinite-division-volume-not-preserved", "INF mean with sigma 2 gave " + jnum(c->get_division_volume()), "mode=clamp\nseed=7\n");
-      g_force = false; c->clear_data(); }
+    { g_force = true; long total = 0;
+      for (size_t m = 0; m < CLAMP_MENU.size(); m++) { const ClampParams& cp = CLAMP_MENU[m]; auto ty = sc::make_cell_type(0, 3); ty->avg_growth_rate_ = cp.ag; ty->std_growth_rate_ = cp.sg; ty->avg_division_vol_ = cp.ad; ty->std_division_vol_ = cp.sd; cell_ptr c = sc::make_cell(sc::octahedron(), 0, ty, true);
+        long N = th ? 1000000 : 100000; long lo_g = 0, hi_g = 0, lo_d = 0, hi_d = 0, in_g = 0, in_d = 0; const double glo = cp.ag - 3 * cp.sg, ghi = cp.ag + 3 * cp.sg, dlo = cp.ad - 3 * cp.sd, dhi = cp.ad + 3 * cp.sd, tg = 1e-12 * std::max(std::fabs(glo), std::fabs(ghi)), td = 1e-12 * std::max(std::fabs(dlo), std::fabs(dhi));
+        for (long s = 1; s <= N; s++) { g_forced_seed = (unsigned long)s; c->initialize_random_properties(); double g = c->get_growth_rate(), d = c->get_division_volume(); total++;
+          if (!(g >= glo - tg && g <= ghi + tg)) { R.violation("growth-rate-outside-3-sigma|menu=" + std::to_string(m), "parameters " + clamp_json(cp) + ", seed " + std::to_string(s) + ": growth rate " + jnum(g) + " outside [" + jnum(glo) + ", " + jnum(ghi) + "]", "mode=clamp\nmenu=" + std::to_string(m) + "\nseed=" + std::to_string(s) + "\n"); break; }
+          if (!(d >= dlo - td && d <= dhi + td)) { R.violation("division-volume-outside-3-sigma|menu=" + std::to_string(m), "parameters " + clamp_json(cp) + ", seed " + std::to_string(s) + ": division volume " + jnum(d) + " outside [" + jnum(dlo) + ", " + jnum(dhi) + "]", "mode=clamp\nmenu=" + std::to_string(m) + "\nseed=" + std::to_string(s) + "\n"); break; }
+          if (g == glo) lo_g++; else if (g == ghi) hi_g++; else in_g++; if (d == dlo) lo_d++; else if (d == dhi) hi_d++; else in_d++; }
+        std::string tn = "clamp_branch_hits_menu" + std::to_string(m); R.tables[tn]["growth_low"] = lo_g; R.tables[tn]["growth_high"] = hi_g; R.tables[tn]["growth_inside"] = in_g; R.tables[tn]["division_low"] = lo_d; R.tables[tn]["division_high"] = hi_d; R.tables[tn]["division_inside"] = in_d;
+        if (!(lo_g && hi_g && lo_d && hi_d && in_g && in_d) && R.violations.empty()) R.internal_error = "a clamp branch was never taken in the seed range (vacuous), menu " + std::to_string(m);
+        if (m == 0) { // INF division volume stays INF
+          ty->avg_division_vol_ = INF; g_forced_seed = 7; c->initialize_random_properties(); if (!std::isinf(c->get_division_volume())) R.violation("infinite-division-volume-not-preserved", "INF mean with sigma 2 gave " + jnum(c->get_division_volume()), "mode=clamp\nmenu=0\nseed=7\n"); }
+        c->clear_data(); }
+      R["clamp_seeds"] = total; g_force = false; }
     // (c) removal: all assignments of {keep, shrink} over 3 iterations, populations of 2..4
     { long hist = 0, removed = 0; for (int n = 2; n <= (th ? 4 : 3); n++) { std::deque<History> fr; fr.push_back({}); int D = 3;
         while (!fr.empty()) { if (R.out_of_time(0.92)) { R.cap("deadline in the removal block"); break; } History h = fr.front(); fr.pop_front(); size_t pop = n; if (!h.empty()) { size_t fp = 0; std::string e = run_removal(n, h, &fp); if (!e.empty()) continue; pop = fp; } if (pop == 0) { R["removal_histories_reaching_empty_population"]++; continue; }
@@ -121,8 +130,9 @@ static int replay(const Replay& rp, Result& R) {
     std::string mode = rp.get("mode"), e1, e2;
     if (mode == "law") { LawParams lp; std::istringstream i(rp.get("params")); std::string t[6]; for (auto& x : t) i >> x; lp = {strtod(t[0].c_str(), 0), strtod(t[1].c_str(), 0), strtod(t[2].c_str(), 0), strtod(t[3].c_str(), 0), strtod(t[4].c_str(), 0), strtod(t[5].c_str(), 0)}; std::vector<int> h; for (char ch : rp.get("hist")) h.push_back(ch - '0'); e1 = run_law((int)rp.geti("type"), lp, h); e2 = run_law((int)rp.geti("type"), lp, h); }
     else if (mode == "removal") { History h = hist_parse(rp.get("hist")); e1 = run_removal((int)rp.geti("n"), h); e2 = run_removal((int)rp.geti("n"), h); }
-    else { auto ty = sc::make_cell_type(0, 3); ty->avg_growth_rate_ = 5.0; ty->std_growth_rate_ = 0.5; ty->avg_division_vol_ = 10.0; ty->std_division_vol_ = 2.0; cell_ptr c = sc::make_cell(sc::octahedron(), 0, ty, true); g_force = true; g_forced_seed = rp.geti("seed"); c->initialize_random_properties(); printf("growth %.17g division volume %.17g\n", c->get_growth_rate(), c->get_division_volume());
-        bool bad = !(c->get_growth_rate() >= 3.5 - 1e-12 && c->get_growth_rate() <= 6.5 + 1e-12 && c->get_division_volume() >= 4 - 1e-12 && c->get_division_volume() <= 16 + 1e-12); c->clear_data(); sw::cleanup_scratch(); if (bad) { R.violation("clamp", "outside 3 sigma", ""); return 1; } return 0; }
+    else { const ClampParams& cp = CLAMP_MENU.at((size_t)rp.geti("menu")); auto ty = sc::make_cell_type(0, 3); ty->avg_growth_rate_ = cp.ag; ty->std_growth_rate_ = cp.sg; ty->avg_division_vol_ = cp.ad; ty->std_division_vol_ = cp.sd; cell_ptr c = sc::make_cell(sc::octahedron(), 0, ty, true); g_force = true; g_forced_seed = rp.geti("seed"); c->initialize_random_properties(); printf("growth %.17g division volume %.17g\n", c->get_growth_rate(), c->get_division_volume());
+        const double glo = cp.ag - 3 * cp.sg, ghi = cp.ag + 3 * cp.sg, dlo = cp.ad - 3 * cp.sd, dhi = cp.ad + 3 * cp.sd, tg = 1e-12 * std::max(std::fabs(glo), std::fabs(ghi)), td = 1e-12 * std::max(std::fabs(dlo), std::fabs(dhi));
+        bool bad = !(c->get_growth_rate() >= glo - tg && c->get_growth_rate() <= ghi + tg && c->get_division_volume() >= dlo - td && c->get_division_volume() <= dhi + td); c->clear_data(); sw::cleanup_scratch(); if (bad) { R.violation("clamp", "outside 3 sigma", ""); return 1; } return 0; }
     sw::cleanup_scratch(); if (e1 != e2) { printf("replay diverged\n"); return 0; } printf("%s\n", e1.c_str()); if (!e1.empty()) { R.violation(clause_of(e1), e1, ""); return 1; } return 0;
 }
 int main(int argc, char** argv) { return run_main(argc, argv, "C04", explore, replay); }
